@@ -995,7 +995,7 @@ func newAddrExpr(args []*internal.Elem) *ast.UnaryExpr {
 
 func zeroCompositeLit(p *Package, typ types.Type, typ0 *types.Type) *ast.CompositeLit {
 	return &ast.CompositeLit{
-		Type: toType(p, typ),
+		Type: toType(p, *typ0), // the requested type, not its underlying type
 	}
 }
 
